@@ -219,10 +219,11 @@ Section Shapes.
     fold (list_value its). destruct (list_value its) eqn:E; [|reflexivity].
     exfalso. destruct its as [|i its]; [contradiction|].
     unfold list_value, ic_append, g_append in E. simpl in E.
-    assert (Hlen : forall its acc, (length acc <= length (fold_left (g_append1 item items_eqb) its acc))%nat).
-    { clear. induction its as [|j its IH]; intros acc; simpl; [lia|].
+    assert (Hlen : forall (eqf : item -> item -> bool) its acc, (length acc <= length (fold_left (g_append1 item eqf) its acc))%nat).
+    { clear. intros eqf. induction its as [|j its IH]; intros acc; simpl; [lia|].
       eapply Nat.le_trans; [|apply IH]. unfold g_append1. destruct (g_contains _ _ _ _); [lia|rewrite app_length; simpl; lia]. }
-    pose proof (Hlen its (g_append1 item items_eqb [] i)) as Hl'. rewrite E in Hl'. simpl in Hl'. lia.
+    match type of E with fold_left (g_append1 item ?eqf) _ _ = _ => pose proof (Hlen eqf its (g_append1 item eqf [] i)) as Hl' end.
+    rewrite E in Hl'. simpl in Hl'. lia.
   Qed.
 
   Lemma list_value_one i : list_value [i] = [i].
